@@ -28,6 +28,10 @@ class FileManager:
             return Error(f"Page does NOT exist: {zpage}")
 
         zlines = zpage.read_text().split("\n")
+        if zlines[-1] != "":
+            # The file does not end with a newline, so its last line is a real
+            # line (that we must NOT replace).
+            zlines.append("")
         in_note = False
         start_idx = len(zlines) - 1
         for i, line in enumerate(zlines):
@@ -37,11 +41,11 @@ class FileManager:
                 in_note = False
                 start_idx = i
         end_idx = start_idx + 1
-        new_zlines = (
-            zlines[:start_idx]
-            + note.to_string().split("\n")
-            + zlines[end_idx:]
-        )
+        note_lines = note.to_string().split("\n")
+        if "" not in zlines[:start_idx]:
+            # The page's header MUST be followed by a blank line.
+            note_lines = [""] + note_lines
+        new_zlines = zlines[:start_idx] + note_lines + zlines[end_idx:]
         new_zcontents = "\n".join(new_zlines)
         zpage.write_text(new_zcontents)
         return None
